@@ -311,6 +311,10 @@ def gauss_seidel(A, x, b, iterations=1, sweep='forward', omega=1.0):
     """
     A, x, b = make_system(A, x, b, formats=['csr', 'bsr'])
 
+    if omega != 1.0 and A.format == 'bsr':
+        # the weighted (SOR) sweep is only implemented for CSR storage
+        A = A.tocsr()
+
     if sparse.issparse(A) and A.format == 'csr':
         blocksize = 1
     else:
